@@ -105,6 +105,8 @@ func (t *floatScalar) CoerceOut(v interface{}) (interface{}, error) {
 				return nil, newCoerceErr(v, "Float")
 			}
 			v = float32(f)
+		} else {
+			v = nil
 		}
 	default:
 		v = nil
